@@ -11,6 +11,7 @@ CONSTANTS
   ContentsC = {"one"}
   FlagsC = {FALSE}
   AbsC = {FALSE}
+  KeepC = {"only"}
   LastC = {}
   Design = "asbuilt"
 INVARIANTS Inv_C02
